@@ -65,7 +65,7 @@ manifest = {
     }],
     'checks': checks,
     'not_applicable': na,
-    'notes': 'Every check: ./check Cxx --tier quick|thorough. Exit 0 held / 1 violation / 2 infrastructure. '
+    'notes': 'Every check: ./check Cxx --tier quick|thorough. Exit 0 held / 1 violation (also when a phase cannot complete against the tree: no-failing-input-found) / 2 usage or missing check. '
              'known_findings.json lists recorded and fixed defects.',
 }
 with open(os.path.join(VERIF, 'MANIFEST.json'), 'w') as f:
